@@ -54,6 +54,12 @@ def real_run(prog, rows, agg, fname="p.csv", policy=("collect",), method="collec
                 out["lines"] = c.collect(ptxt)
             elif method == "next":
                 out["lines"] = [ln[:] for ln in c.next(ptxt)]
+            elif method == "parse+next":
+                c.parse(ptxt)
+                out["lines"] = [ln[:] for ln in c.next()]
+            elif method == "parse+collect":
+                c.parse(ptxt)
+                out["lines"] = c.collect()
             else:
                 c.fast_forward(ptxt)
         except Exception as e:  # noqa
@@ -117,6 +123,9 @@ def returned_lines_problem(real, mtrace, rows):
     return None
 
 
+ENTRY_POINTS = ["collect", "collect", "collect", "collect", "next", "next", "parse+next", "parse+collect", "fast_forward", "collect"]
+
+
 def decide(prog, rows, agg, what, known_switches=(), extra_check=None, policy=None):
     """policy: None -> real run under ['collect'] and any error is a divergence;
     a list -> real run under that policy, the model applies it to documented errors"""
@@ -128,12 +137,17 @@ def decide(prog, rows, agg, what, known_switches=(), extra_check=None, policy=No
         return "undecided", "unspec:" + str(e)[:40]
     except model.ExpErr as e:
         return "undecided", "error-expected"
-    real = real_run(prog, rows, agg, policy=("collect",) if policy is None else tuple(policy))
+    # the entry point rotates with the program text: the documented semantics do not depend on it
+    import zlib
+
+    method = ENTRY_POINTS[zlib.crc32(lang.program_text(prog, "p.csv").encode()) % len(ENTRY_POINTS)]
+    agg.count("entry:" + method)
+    real = real_run(prog, rows, agg, policy=("collect",) if policy is None else tuple(policy), method=method)
     try:
         os.unlink("p.csv")
     except OSError:
         pass
-    witness = {"program": real["text"], "rows": rows}
+    witness = {"program": real["text"], "rows": rows, "entry_point": method}
     if real["exc"]:
         witness["exception"] = real["exc"]
         return "violation", ("exception", witness)
